@@ -4,20 +4,30 @@ package chacha20poly1305
 
 // Contracts for package chacha20poly1305, checked by /verif (govc). Comment-only file: it adds no declarations.
 
+// The two wrappers are verified against the assumed contracts of x/crypto's AEAD (contracts/trusted/misc.spec): key and
+// nonce sizes, the four zero bytes in front of the 8-byte nonce, the tag taken from / appended at the end.
+// (append(message, mac...) may write the tag into spare capacity of the caller's message buffer: its backing object is in the frame)
 //@ func DecryptAndVerify(key, nonce, message, mac, add) (out, err)
-//@   trusted
 //@   fresh out
-//@   pure
+//@   modifies message[:]
+//@   ensures kept: seq(message) == old(seq(message))
+//@   assert pad before Open#1: len(arg2) == 12 && seqat(seq(arg2), 0) == 0 && seqat(seq(arg2), 1) == 0 && seqat(seq(arg2), 2) == 0 && seqat(seq(arg2), 3) == 0
+//@   assert n8 before Open#1: sub(seq(arg2), 4, 12) == old(seq(nonce))
+//@   assert ct before Open#1: len(arg3) == len(message) + 16 && sub(seq(arg3), 0, len(arg3) - 16) == old(seq(message)) && sub(seq(arg3), len(arg3) - 16, len(arg3)) == seq(mac)
 //@   ensures err != nil ==> out == nil
 //@   ensures err == nil ==> len(key) == 32 && len(nonce) == 8 && len(out) == len(message)
-//@   ensures err == nil ==> aead_ok(seq(key), seq(nonce), seq(message), seq(mac), seq(add))
-//@   ensures err == nil ==> seq(out) == aead_open(seq(key), seq(nonce), seq(message), seq(mac), seq(add))
-//@   ensures len(key) == 32 && len(nonce) == 8 && aead_ok(seq(key), seq(nonce), seq(message), seq(mac), seq(add)) ==> err == nil
+// (old(...): the tag may be appended in place, and nothing forbids the caller's other buffers to overlap that spare
+// capacity: key and nonce are consumed before the append, the associated data after it)
+//@   ensures err == nil ==> aead_ok(old(seq(key)), old(seq(nonce)), old(seq(message)), seq(mac), seq(add))
+//@   ensures err == nil ==> seq(out) == aead_open(old(seq(key)), old(seq(nonce)), old(seq(message)), seq(mac), seq(add))
+//@   ensures len(key) == 32 && len(nonce) == 8 && aead_ok(old(seq(key)), old(seq(nonce)), old(seq(message)), seq(mac), seq(add)) ==> err == nil
 
 //@ func EncryptAndSeal(key, nonce, message, add) (out, mac, err)
-//@   trusted
 //@   fresh out
 //@   pure
 //@   ensures err == nil ==> len(out) == len(message)
-//@   ensures err == nil ==> seq(out) == aead_seal(seq(key), seq(nonce), seq(message), seq(add)) && seq(mac) == aead_tag(seq(key), seq(nonce), seq(message), seq(add))
+//@   assert pad before Seal#1: len(arg2) == 12 && seqat(seq(arg2), 0) == 0 && seqat(seq(arg2), 1) == 0 && seqat(seq(arg2), 2) == 0 && seqat(seq(arg2), 3) == 0
+//@   assert n8 before Seal#1: sub(seq(arg2), 4, 12) == seq(nonce) && aeadkey(arg0) == seq(key)
+//@   ensures seal: err == nil ==> seq(out) == aead_seal(seq(key), seq(nonce), seq(message), seq(add))
+//@   ensures tag: err == nil ==> seq(mac) == aead_tag(seq(key), seq(nonce), seq(message), seq(add))
 //@   ensures (len(key) == 32 && len(nonce) == 8) ==> err == nil
